@@ -20,6 +20,7 @@ const (
 	ps3ModeVolumeName = "PS3VOLUME"
 	consoleID         = "PlayStation3"
 
+	maxFilesSize           sizeBytes   = 0x30000000 * sectorSize // 1.5 TiB
 	multiExtentPartSize    sizeBytes   = 0xFFFFF800
 	maxPartSize            sizeBytes   = 0xFFFFFFFF
 	basePadSectors         sizeSectors = 0x20
@@ -262,6 +263,11 @@ func (viso *VirtualISO) scanDirectory() error {
 				modTime: itemStat.ModTime(),
 			}
 
+			// sector numbers are 32-bit signed here, keep room for filesystem structures and padding
+			if fi.size < 0 || fi.size > maxFilesSize || viso.filesSizeSectors.bytes()+fi.size > maxFilesSize {
+				return fmt.Errorf("item %s makes image too large", fullPath)
+			}
+
 			dirItem.files = append(dirItem.files, fi)
 			viso.filesSizeSectors += fi.size.sectors()
 		}
@@ -397,11 +403,12 @@ func (viso *VirtualISO) makeDirEntries(item *dirItem, joliet bool) error {
 		totalSizeBytes += entry.size()
 	}
 
-	// total size must be integer number of sectors so ceil it if needed
-	totalSizeBytes = totalSizeBytes.sectors().bytes()
-	if totalSizeBytes > maxPartSize {
+	if totalSizeBytes > maxPartSize-sectorSize {
 		return fmt.Errorf("directory %s has too many entries", item.path)
 	}
+
+	// total size must be integer number of sectors so ceil it if needed
+	totalSizeBytes = totalSizeBytes.sectors().bytes()
 
 	// set correct size to first entry
 	if joliet {
